@@ -361,3 +361,64 @@ def rule_idx_space(ctx):
                     )
     ctx.floor("subscript sites", nsub, 8)
     ctx.floor("matcher call sites", nmatch, 5)
+
+
+DROPPING = {"filter", "filter_map", "skip", "skip_while", "take_while", "flat_map", "flatten", "rev", "step_by", "chain", "dedup", "peekable_skip"}
+POSITIONAL_USE = (
+    r'format_ident!\("_\{%(i)s\}"\)',
+    r'format_ident!\("_\{\}",%(i)s\)',
+    r"syn::Index::from\(%(i)s\)",
+    r"Index::from\(%(i)s\)",
+    r"syn::Member::Unnamed\(%(i)s\.into\(\)\)",
+    r"\b(field_index|index|idx|position):%(i)s\b",
+    r"Some\(%(i)s\.into\(\)\)",
+    r"\(%(i)s,\w+(,\w+)*\)",
+    r"\[%(i)s\]",
+)
+
+
+def rule_enumerate_positions(ctx):
+    """IDX-ENUM: an `.enumerate()` index that names a field positionally (`_{i}`, `syn::Index::from(i)`, `Member::Unnamed(i)`, `field_index: i`, `(i, field, ..)` tuples carried on) counts *declaration* positions: the iterator it is applied to yields every field / element exactly once, in order (no `filter`, `skip`, `rev`, .. before the `enumerate`). Enumerating after a filter numbers the survivors, so a kept field behind a skipped one is read from / bound to its neighbour's position."""
+    n = 0
+    for rel, f in sorted(ctx.files.items()):
+        if not rel.startswith("impl/src/"):
+            continue
+        for fn in A.functions(f):
+            for mc, ps in A.find(fn.block, "Expr::MethodCall"):
+                if mc["method"]["sym"] != "enumerate":
+                    continue
+                n += 1
+                root, ops = A.chain(mc["receiver"])
+                before = [o[1] for o in ops if o[0] == "m"]
+                dropped = [m for m in before if m in DROPPING]
+                recv = A.render(mc["receiver"])
+                # the consumer of the (index, item) pairs: the closure of the next adapter, or the `for` pattern
+                idx_name = None
+                body = None
+                parent = ps[-1] if ps else None
+                if A.kind(parent) == "Expr::MethodCall" and parent.get("receiver") is mc and parent["args"] and A.kind(parent["args"][0]) == "Expr::Closure":
+                    cl = parent["args"][0]
+                    pat = A.render_pat(cl["inputs"][0]) if cl["inputs"] else ""
+                    m = re.match(r"\(?\(?(\w+),", pat)
+                    idx_name = m.group(1) if m else None
+                    body = A.render(cl["body"])
+                else:
+                    fl = next((p for p in reversed(ps) if A.kind(p) == "Expr::ForLoop" and p.get("expr") is mc), None)
+                    if fl is not None:
+                        m = re.match(r"\(?(\w+),", A.render_pat(fl["pat"]))
+                        idx_name = m.group(1) if m else None
+                        body = ";".join(A.render_stmt(s) for s in fl["body"]["stmts"])
+                positional = False
+                if idx_name and body and idx_name != "_":
+                    positional = any(re.search(p % {"i": re.escape(idx_name)}, body) for p in POSITIONAL_USE)
+                key = f"{rel}::{fn.qual}:enumerate:{recv[:60]}"
+                ctx.instance(key, sample={"fn": f"{rel}::{fn.qual}", "over": recv[:100], "index": idx_name, "positional_use": positional, "adapters_before": before})
+                if dropped and (positional or idx_name is None):
+                    ctx.report(
+                        key,
+                        ctx.where(f, mc["method"]),
+                        f"`{fn.qual}` enumerates `{recv[:120]}` *after* `.{dropped[0]}(..)` and uses the index `{idx_name}` as a field position: survivors are renumbered from 0, so with a skipped / filtered element in front the index names the wrong field "
+                        "(`as_ref()` returns `&self.0` instead of `&self.1`)",
+                        {"adapters_before": before},
+                    )
+    ctx.floor("enumerate sites", n, 14)
